@@ -764,6 +764,10 @@ def helper_def(draw, idx, W):
                 lambda t: [{"k": "if", "arms": [[t[0], t[1]]], "else": t[2]}]),
             st.tuples(cond_expr(env, 0), branch(depth - 1), ret()).map(
                 lambda t: [{"k": "if", "arms": [[t[0], t[1]]], "else": None}, t[2]]),
+            # a branch without return next to a branch with one, then a common return (fall-through paths)
+            st.tuples(cond_expr(env, 0), vec_expr(env, 1), cond_expr(env, 0), ret(), ret()).map(
+                lambda t: [{"k": "if", "arms": [[t[0], [{"k": "bind", "bind": "hl0", "e": ["inv", t[1]]}]], [t[2], [t[3]]]],
+                            "else": None}, t[4]]),
         )
     body = draw(branch(2))
     return {"name": f"h{idx}", "params": params, "body": body}
